@@ -143,7 +143,7 @@ type world struct {
 	wake chan struct{}
 
 	nkeys   int
-	pubs    []string                  // key index -> Public.String()
+	pubs    []string                   // key index -> Public.String()
 	ids     []network.ServerIdentityID // key index -> GetID()
 	peerSI  []*network.ServerIdentity
 	ctxPeer int
@@ -408,6 +408,15 @@ type outc struct {
 	Set  []int  `json:"set,omitempty"`
 	Key  int    `json:"key,omitempty"`
 	Decl int    `json:"decl,omitempty"`
+	Msg  string `json:"msg,omitempty"`
+}
+
+func errClass(err error) string {
+	s := err.Error()
+	if len(s) > 80 {
+		s = s[:80]
+	}
+	return s
 }
 
 func (o outc) coq() string {
@@ -425,6 +434,8 @@ func (o outc) coq() string {
 		return "XRefuse"
 	case "disp":
 		return fmt.Sprintf("(XDisp %d %d)", o.Key, o.Decl)
+	case "broken":
+		return "XBroken"
 	}
 	return "XNone"
 }
@@ -554,24 +565,77 @@ type pending struct {
 	conn, seq int64
 }
 
-// runOps executes the history; returns the per-op outcomes, or a reason to discard.
+// harnessBug is a panic that is the harness's own fault (malformed replay input, a
+// service of the harness without context): it is never turned into an observation
+// and never into a dropped case -- the process fails loudly.
+type harnessBug string
+
+// errDiscard: the only scenario that is dropped: the harness could not create one of
+// its OWN peer routers (port binding).  Counted by the driver.
+type errDiscard string
+
+// runOps executes the history; returns the per-op outcomes.  A panic of the code under
+// test, a connection attempt that is neither served nor closed within the deadline, a
+// listener that cannot be reached any more: each is the OBSERVATION "broken" of that
+// operation (model: never; checker: clause 9), not a dropped case.
 func (w *world) runOps(in *input) (outs []outc, discard string) {
 	var late []pending // ops observed "not dispatched": re-checked after the final barrier
 	for pos, op := range in.Ops {
+		var o outc
+		func() {
+			defer func() {
+				if r := recover(); r != nil {
+					switch x := r.(type) {
+					case harnessBug:
+						panic(x)
+					case errDiscard:
+						discard = string(x)
+					default:
+						o = outc{Kind: "broken", Msg: fmt.Sprint("panic: ", r)}
+					}
+				}
+			}()
+			o = w.oneOp(pos, op, &late)
+		}()
+		if discard != "" {
+			return nil, discard
+		}
+		outs = append(outs, o)
+	}
+	// final barrier: everything of the peers is closed and the filtering server is
+	// stopped (Stop waits for all handling routines), then the log is final.
+	func() {
+		defer func() {
+			if r := recover(); r != nil && len(outs) > 0 {
+				outs[len(outs)-1] = outc{Kind: "broken", Msg: fmt.Sprint("panic while stopping the server: ", r)}
+			}
+		}()
+		w.close()
+	}()
+	for _, p := range late {
+		if ev, ok, _ := w.find(p.conn, p.seq); ok && outs[p.idx].Kind == "none" {
+			outs[p.idx] = w.dispOut(ev)
+		}
+	}
+	return outs, ""
+}
+
+func (w *world) oneOp(pos int, op opIn, latep *[]pending) outc {
+	{
 		switch op.Kind {
 		case "set", "get":
 			id, ok := w.peerSetID(op.Src)
 			if !ok {
-				return nil, "no context for set id"
+				panic(harnessBug("no context for a context-derived set id (mode " + w.mode + ")"))
 			}
 			var ctx *onet.Context
 			if op.Entry > 0 {
 				if w.srv == nil {
-					return nil, "context entry without server"
+					panic(harnessBug("context entry in a router mode"))
 				}
 				ctx = ctxFor(w.si, op.Entry-1)
 				if ctx == nil {
-					return nil, "no context"
+					panic(harnessBug("harness service has no context on the filtering server"))
 				}
 			}
 			if op.Kind == "set" {
@@ -586,7 +650,7 @@ func (w *world) runOps(in *input) (outs []outc, discard string) {
 				} else {
 					w.router.SetValidPeers(id, peers)
 				}
-				outs = append(outs, outc{Kind: "unit"})
+				return outc{Kind: "unit"}
 			} else {
 				var got []network.ServerIdentityID
 				if ctx != nil {
@@ -601,7 +665,7 @@ func (w *world) runOps(in *input) (outs []outc, discard string) {
 					o.Set = append(o.Set, w.canonOfID(g))
 				}
 				sort.Ints(o.Set)
-				outs = append(outs, o)
+				return o
 			}
 		case "offer", "junk":
 			k := 0
@@ -610,7 +674,8 @@ func (w *world) runOps(in *input) (outs []outc, discard string) {
 			}
 			c, err := w.openRaw(k)
 			if err != nil {
-				return nil, "cannot open raw connection: " + err.Error()
+				// the listener cannot be reached (any more): an observation, not a dropped case
+				return outc{Kind: "broken", Msg: "cannot open a connection to the server: " + errClass(err)}
 			}
 			rc := &rawConn{c: c, eof: make(chan struct{})}
 			w.raw[pos] = rc
@@ -629,36 +694,34 @@ func (w *world) runOps(in *input) (outs []outc, discard string) {
 			c.Send(&C17Msg{Conn: int64(pos), Seq: -1})
 			_, ok, timeout := w.waitDisp(int64(pos), -1, rc.eof, dispWait)
 			if timeout {
-				return nil, "connection attempt neither served nor closed"
+				return outc{Kind: "broken", Msg: "connection attempt neither served nor closed within the deadline"}
 			}
 			if ok {
 				rc.accepted = true
-				outs = append(outs, outc{Kind: "accept"})
+				return outc{Kind: "accept"}
 			} else {
-				outs = append(outs, outc{Kind: "refuse"})
+				return outc{Kind: "refuse"}
 			}
 		case "msg":
 			rc := w.raw[op.Conn]
 			if rc == nil {
-				outs = append(outs, outc{Kind: "none"})
-				continue
+				return outc{Kind: "none"}
 			}
 			_, err := rc.c.Send(&C17Msg{Conn: int64(op.Conn), Seq: int64(pos)})
 			if rc.accepted && !rc.closed && err == nil {
 				ev, ok, _ := w.waitDisp(int64(op.Conn), int64(pos), rc.eof, dispWait)
 				if ok {
-					outs = append(outs, w.dispOut(ev))
-					continue
+					return w.dispOut(ev)
 				}
 			}
-			outs = append(outs, outc{Kind: "none"})
-			late = append(late, pending{pos, int64(op.Conn), int64(pos)})
+			*latep = append(*latep, pending{pos, int64(op.Conn), int64(pos)})
+			return outc{Kind: "none"}
 		case "close":
 			if rc := w.raw[op.Conn]; rc != nil && !rc.closed {
 				rc.c.Close()
 				rc.closed = true
 			}
-			outs = append(outs, outc{Kind: "unit"})
+			return outc{Kind: "unit"}
 		case "psend":
 			p := op.Peer
 			conn, seq := int64(-1-p), int64(pos)
@@ -667,62 +730,50 @@ func (w *world) runOps(in *input) (outs []outc, discard string) {
 				// through the service context of a real onet.Server
 				cx := ctxFor(w.ctxSrv.ServerIdentity, 0)
 				if cx == nil {
-					return nil, "no context on the sending server"
+					panic(harnessBug("harness service has no context on the sending server"))
 				}
 				cx.SendRaw(w.si, msg)
 				ev, ok, timeout := w.waitSendOutcome(conn, seq, w.ctxSrv.Router)
 				if ok {
-					outs = append(outs, w.dispOut(ev))
-					continue
+					return w.dispOut(ev)
 				}
 				if timeout {
-					return nil, "context send neither dispatched nor refused"
+					return outc{Kind: "broken", Msg: "context send neither dispatched nor refused within the deadline"}
 				}
-				outs = append(outs, outc{Kind: "none"})
-				late = append(late, pending{pos, conn, seq})
-				continue
+				*latep = append(*latep, pending{pos, conn, seq})
+				return outc{Kind: "none"}
 			}
 			r := w.routers[p]
 			if r == nil {
 				var err error
 				r, err = w.newPeerRouter(p)
 				if err != nil {
-					return nil, "cannot create peer router: " + err.Error()
+					panic(errDiscard("cannot create the harness's own peer router: " + err.Error()))
 				}
 				w.routers[p] = r
 			}
 			r.Send(w.si, msg)
 			ev, ok, timeout := w.waitSendOutcome(conn, seq, r)
 			if ok {
-				outs = append(outs, w.dispOut(ev))
-				continue
+				return w.dispOut(ev)
 			}
 			if timeout {
-				return nil, "peer send neither dispatched nor refused"
+				return outc{Kind: "broken", Msg: "peer send neither dispatched nor refused within the deadline"}
 			}
 			// refused: every connection this router opened (Send may retry once) has been
 			// closed by the server and removed from the router's table
-			outs = append(outs, outc{Kind: "none"})
-			late = append(late, pending{pos, conn, seq})
+			*latep = append(*latep, pending{pos, conn, seq})
+			return outc{Kind: "none"}
 		case "pdrop":
 			if r := w.routers[op.Peer]; r != nil {
 				r.Stop()
 				delete(w.routers, op.Peer)
 			}
-			outs = append(outs, outc{Kind: "unit"})
+			return outc{Kind: "unit"}
 		default:
-			return nil, "unknown op " + op.Kind
+			panic(harnessBug("unknown op " + op.Kind))
 		}
 	}
-	// final barrier: everything of the peers is closed and the filtering server is
-	// stopped (Stop waits for all handling routines), then the log is final.
-	w.close()
-	for _, p := range late {
-		if ev, ok, _ := w.find(p.conn, p.seq); ok {
-			outs[p.idx] = w.dispOut(ev)
-		}
-	}
-	return outs, ""
 }
 
 // ---------------------------------------------------------------- Coq ------
@@ -792,11 +843,8 @@ func run(raw json.RawMessage) lib.Case {
 	func() {
 		defer func() {
 			if r := recover(); r != nil {
-				discard = fmt.Sprint("panic in harness/implementation: ", r)
-				func() {
-					defer func() { recover() }()
-					w.close()
-				}()
+				// per-operation panics are observations already; what is left is the harness's own
+				panic(r)
 			}
 		}()
 		outs, discard = w.runOps(&in)
